@@ -307,7 +307,7 @@ Section Integrity.
         destruct (typ =? recordTypeApplicationData)%N eqn:Ea.
         + injection H as <-. exists (S k). split; [lia|]. right. cbn [i_hc i_input].
           split; [exact Hsync'|]. exists data0. split; [reflexivity|exact Hstep].
-        + injection H as <-. apply Hfail; auto.
+        + destruct (typ =? recordTypeHandshake)%N; injection H as <-; apply Hfail; auto.
     Qed.
 
     Lemma recv_all_trace_incl rounds fuel : forall c out c',
@@ -354,7 +354,7 @@ Section Integrity.
   End Run.
 
   (* a receiver after the handshake: half connection hc, nothing buffered, [wire] still to come *)
-  Definition receiver0 (hc : halfConn) (vers : N) (wire : list N) : connIn := mkIn hc vers wire None 0 0 [].
+  Definition receiver0 (hc : halfConn) (vers : N) (wire : list N) : connIn := mkIn hc vers wire None 0 [] [].
 
   (* ---------- theorem 3 ---------------------------------------------------------------------------------------- *)
   Theorem prefix_integrity_wire ver s0 items hc vers wire rounds fuel out c' :
